@@ -182,7 +182,7 @@ class SimTransport(asyncio.Transport):
     # --- client-side API
     def get_extra_info(self, name, default=None):
         if name == "peername":
-            return (self.conn.host, self.conn.port)
+            return (getattr(self.conn, "addr", self.conn.host), self.conn.port)
         return default
 
     def is_closing(self):
@@ -246,6 +246,8 @@ class SimTransport(asyncio.Transport):
         self._loop.call_soon(self._call_connection_lost, None)
 
     def abort(self):
+        dropped = sum(len(c) for c, _, _ in self._buffer)
+        self.conn.net.log.add("NET.abort", conn=self.conn.id, dropped=dropped)
         self._force_close(None)
 
     def _force_close(self, exc):
@@ -494,6 +496,8 @@ class SimNet:
         self._ids = itertools.count(1)
         self.conns = []
         self.script = []
+        self.dns = {}          # host name -> current address of the console
+        self.gone = set()      # addresses at which nobody answers any more
         self.default = ("accept", 0.0)
         self.on_data = None
         self.on_open = None
@@ -505,8 +509,14 @@ class SimNet:
     async def connect(self, loop, protocol_factory, host, port):
         act = self.script.pop(0) if self.script else self.default
         kind, lat = act[0], act[1]
+        # name resolution: `dns` maps a host name to the address the console has at present;
+        # an address nobody has any more (`gone`) refuses every attempt
+        dns = getattr(self, "dns", None) or {}
+        addr = dns.get(host, host)
+        if addr in getattr(self, "gone", ()):
+            kind = "refuse"
         self.log.add("NET.connect_attempt", outcome=kind, latency=lat, host=host,
-                     port=port)
+                     port=port, **({"resolved": addr} if addr != host else {}))
         if lat:
             await asyncio.sleep(lat)
         else:
@@ -521,6 +531,7 @@ class SimNet:
             import socket as _socket
             raise _socket.gaierror(-2, "Name or service not known (simulated)")
         conn = Conn(self, host, port)
+        conn.addr = addr
         self.conns.append(conn)
         proto = protocol_factory()
         tr = SimTransport(loop, proto, conn)
